@@ -14,11 +14,13 @@ def write_if_changed(path, text):
 
 
 GENERATORS = []  # functions () -> (filename, text); registered by harness/facts_*.py
+_SEEN = set()
 
 
 def regenerate():
+    from harness import facts_cli  # noqa: F401  (registers its generator)
     errors = []
-    for g in GENERATORS:
+    for g in list(dict.fromkeys(GENERATORS)):
         try:
             name, text = g()
             write_if_changed(os.path.join(common.COQ, "gen", name), text)
